@@ -120,6 +120,31 @@ def r11_close(ctx):
                         f'when {wlabel} an autoreset port sends {len(sends)} reset messages and is released {len(closes)} times '
                         f'(autoreset afterwards: {holder["port"].attrs.get("autoreset")!r}, outcome {oc.kind} {oc.value if oc.kind == "return" else oc.exc!r}); '
                         'expected 32 messages, then one release, the exception not swallowed', construct=cons)
+    # the IOPort wrapper around an autoreset output: the reset is the output's business - 32 messages, not 64 - and both
+    # wrapped ports are released once
+    for meth, wlabel, margs in (('close', 'close()', []), ('__exit__', 'the with block ends', [None, None, None]), ('__del__', 'the wrapper is dropped', [])):
+        holder = {}
+
+        def thunk_io2():
+            i_ = pm.new_port(ai, ctx, 'BaseInput', [], {})
+            o_ = pm.new_port(ai, ctx, 'BaseOutput', [], {'autoreset': True})
+            io_ = pm.new_port(ai, ctx, 'IOPort', [i_, o_], {})
+            holder.update(i=i_, o=o_)
+            log_event('mark', 'first')
+            return pm.call(ai, ctx, io_, meth, list(margs))
+        outs = ai.explore(thunk_io2)
+        cons = f'{closef.qname}::ioport-autoreset'
+        oc = one(ctx, 'R11.2', f'IOPort(input, autoreset output): {wlabel}', w, outs, cons)
+        if oc is None:
+            continue
+        log = oc.log
+        i1 = next(i for i, e in enumerate(log) if e == ('mark', 'first'))
+        sends = pm.device_events(log[i1:], '_send')
+        closes = pm.device_events(log[i1:], '_close')
+        ok = oc.kind == 'return' and len(sends) == 32 and len(closes) == 2 and len({id(e[2]) for e in closes}) == 2
+        ctx.require(ok, 'R11.2', f'IOPort(input, autoreset output): {wlabel}', w,
+                    f'when {wlabel} the devices see {len(sends)} reset messages and {len(closes)} releases ({oc.kind}); expected 32 messages '
+                    'and one release of each wrapped port', construct=cons)
     # reset failing with OSError must not prevent the release
     ai2 = pm.make_interp(ctx)
 
@@ -828,4 +853,11 @@ def r11_abandoned(ctx):
     ctx.borrow(c10.r10_abandoned, 'R11.12')
 
 
-RULES = [('R11.12', r11_abandoned), ('R11.11', r11_second_port), ('R11.10', r11_multi_child_fails), ('R11.9', r11_multi_oneshot), ('R11.8', r11_reset_via_send), ('R11-broken-pipe', r11_broken_pipe), ('R11-socket', r11_socket), ('R11-server', r11_server), ('R11-close', r11_close), ('R11-send', r11_send), ('R11-receive', r11_receive), ('R11-multi', r11_multi)]
+def r11_closed_elsewhere(ctx):
+    """Iteration ends without an exception whether the port closed before, between or inside receive calls - also when it is
+    closed by someone else while the caller waits on a connection that is still up (shared with C18 R18.10)."""
+    from . import c18
+    ctx.borrow(c18.r18_closed_elsewhere, 'R11.13')
+
+
+RULES = [('R11.13', r11_closed_elsewhere), ('R11.12', r11_abandoned), ('R11.11', r11_second_port), ('R11.10', r11_multi_child_fails), ('R11.9', r11_multi_oneshot), ('R11.8', r11_reset_via_send), ('R11-broken-pipe', r11_broken_pipe), ('R11-socket', r11_socket), ('R11-server', r11_server), ('R11-close', r11_close), ('R11-send', r11_send), ('R11-receive', r11_receive), ('R11-multi', r11_multi)]
